@@ -71,7 +71,7 @@ def main(args):
                "SchemaUniverse (quick: singles, all pairs and orders inside the interacting families, every single wrapped "
                "under every applicator; thorough: family triples, all keyword pairs, wrapped pairs) x 36 instances x 4 "
                "drafts; plus seeded random deep schemas (depth <= 4, <= 6 keywords, guided instances) whose recorded "
-               "verdicts TLC validates (Trace_Verdict). A (schema, instance) case is non-trivial when the schema has at "
+               "verdicts TLC validates (Trace_Verdict), together with the verdict the real classes give on every case of the bundled official suite. A (schema, instance) case is non-trivial when the schema has at "
                "least one keyword of the draft and is distinct by canonical hash of (draft, schema, instance); "
                "nontrivial_schemas counts schemas with both a valid and an invalid instance in the list.")
     cfgs = ["quick"] if quick else ["thoroughF", "thoroughP"]
@@ -147,6 +147,31 @@ def main(args):
             elif x[0] == "raised":
                 ck.notes["crashes_left_to_C03"] = ck.notes.get("crashes_left_to_C03", 0) + 1
     ck.notes["random_schemas_rejected_by_check_schema"] = rejected
+    # the official suite cases, with the verdict the REAL classes give (not the suite's expectation): the executions the
+    # repository's own tests perform, judged by the specification (reference-bearing cases included, through the
+    # suite's remotes in the library)
+    import jsonschema
+    suite_n = 0
+    for k, (d, rel, ci, ti, case, t) in enumerate(calibrate.suite_cases()):
+        cls = _cls()[d]
+        try:
+            store = {u: doc for u, doc in calibrate.suite_remotes()} if k == 0 else store
+            res = jsonschema.RefResolver.from_schema(case["schema"], id_of=cls.ID_OF, store=store)
+            got = outcome_of(lambda: cls(case["schema"], resolver=res).is_valid(t["data"]))
+        except Exception:
+            continue
+        if got[0] != "ok":
+            continue
+        try:
+            rec = calibrate.record(10 ** 8 + k, d, case["schema"], t["data"], got[1])
+        except Unencodable:
+            continue
+        recs.append(rec)
+        real[rec["id"]] = {"draft": d, "schema": case["schema"], "instance": t["data"], "observed_valid": got[1],
+                           "suite_case": "%s: %s / %s" % (rel, case["description"], t["description"])}
+        suite_n += 1
+    ck.notes["official_suite_executions_validated"] = suite_n
+    lib = calibrate.write_lib(wd + "/lib.json", calibrate.suite_remotes())
     bad, states = tlc.validate_trace("trace/Trace_Verdict.tla", recs, "c01", shards=16, env={"LIB_FILE": lib})
     tlc.cleanup("c01lib")
     ck.states += states
